@@ -106,6 +106,8 @@ def run(facts, rep, ctx):
         sub = Report(rep.pid)
         sub.rules = {k: dict(v) for k, v in rep.rules.items()}
         rm = c01.reader_model(facts, sub, R7, rd)
+        if rm is not None and rm.get("pointer_entry_dropped"):
+            rep.violation(R7, rd.name, "pointer-entry-dropped", "a pointer-table entry can be skipped by the parser (under [%s]) although the writer emits it: parsing and re-serializing a canonical file loses that entry" % rm["pointer_entry_dropped"], "%s:%s" % (rd.file, rd.line))
         if rm is None or rm.get("classify") is None:
             rep.inconc(R7, "the test that separates string entries from internal pointers was not recognised")
         elif rm["classify"] == "gt-data-size":
@@ -580,6 +582,28 @@ def text_appenders_rule(facts, rep, R4, ser, helper):
                           "%s:%s" % (ser.file, t["line"]))
 
 
+def pairing_rule(facts, rep, R4, ser, helper):
+    """The offsets an interning map records are relative to one byte buffer: a map handed to the helper together with
+    two different buffers (the c-string pool and the text section) would answer a lookup with an offset into the
+    wrong section."""
+    nv = ser.named_view()
+    pairs = {}
+    for bb, t in nv.calls():
+        if (callee_names(t)[1] or "") != helper.name or len(t["args"]) < 2:
+            continue
+        buf = root_of(nv.term_of_operand(t["args"][0]))
+        mp = root_of(nv.term_of_operand(t["args"][1]))
+        if buf and mp:
+            pairs.setdefault(mp, {}).setdefault(buf, t["line"])
+    shared = [(mp, bufs) for mp, bufs in pairs.items() if len(bufs) > 1]
+    for mp, bufs in shared:
+        rep.violation(R4, ser.name, "offset-map-shared:" + str(nv.local_name(mp[1]) if mp[0] == "local" else mp),
+                      "the interning map %s is used with %d different buffers (%s): a string already interned into one section is answered with that section's offset when it is needed in the other and is never written there" % (
+                          fmt(mp), len(bufs), ", ".join(fmt(b_) for b_ in bufs)), "%s:%s" % (ser.file, sorted(bufs.values())[-1]))
+    if pairs and not shared:
+        rep.ok(R4, {"fn": ser.name, "interning_maps": len(pairs), "each_paired_with": "one buffer"})
+
+
 def intern_rule(facts, rep, R4, ser):
     # the interning helper: a local callee taking (&mut Vec<u8>, &mut HashMap<String, usize>, &String)
     cands = set()
@@ -593,6 +617,7 @@ def intern_rule(facts, rep, R4, ser):
         rep.inconc(R4, "interning helper not identified among callees of serialize (%s)" % sorted(cands))
         return
     cb = facts.body(list(cands)[0])
+    pairing_rule(facts, rep, R4, ser, cb)
     try:
         paths = enum_paths(cb)
     except PathLimit:
